@@ -62,6 +62,25 @@ def run(ctx):
         reqs.append({"op": "rfcdec", "hex": data.hex()})
         n_resent += 1
     hist["received-then-resent"] = n_resent
+    # ONE object packed, edited in place through its list fields, packed again: the second bytes must be strict RFC 4511 BER of its CURRENT value
+    import mutate
+    n_edited = 0
+    for j in msgs[len(p_c01.corpus_messages()):][: ctx.scale(1200, 20000)]:
+        try:
+            m = C.msg_from_json(j)
+            m.pack(M.PackingOptions())
+            if not mutate.edit_lists(m, ctx.rng):
+                continue
+            j2 = C.msg_to_json(m)
+            data = bytes(m.pack(M.PackingOptions()))
+        except BaseException:  # noqa: BLE001
+            continue
+        msgs.append(j2)
+        encs.append(data)
+        reqs.append({"op": "rfcdec", "hex": data.hex()})
+        n_edited += 1
+        n_resent += 1
+    hist["packed-edited-packed-again"] = n_edited
     violations = []
     disagreements = []
     samples = []
@@ -112,7 +131,8 @@ def run(ctx):
         "distinct_nontrivial": len(shapes),
         "rule": "messages generated as for C01; each is packed by the implementation and its bytes are decoded by the executable strict "
                 "RFC 4511 decoder of Spec/Rfc4511.lean; the result must equal the message (modulo the raw value of known controls); the same for "
-                "messages that were first decoded from another encoder's permitted (non-canonical) bytes and then packed again; "
+                "messages that were first decoded from another encoder's permitted (non-canonical) bytes and then packed again, and for message objects "
+                "that were packed, edited in place through their list fields and packed again; "
                 "distinct = distinct (kind, control kinds, filter shape)",
         "samples": samples,
         "histogram": dict(sorted(hist.items())),
